@@ -81,7 +81,7 @@ BranchVals(F, deep, small) ==
 
 OneofVals(M, h, deep, small) ==
   {Nil} \cup UNION {{One(M.fields[i].name, w) : w \in BranchVals(M.fields[i], deep, small)}
-                    : i \in {j \in DOMAIN M.fields : M.fields[j].oneof = h}}
+                    : i \in {j \in DOMAIN M.fields : M.fields[j].opath = h}}
 
 \* all values of message M: the product over its units, applied to the zero struct
 \* units are processed in a fixed order; acc is a set of partially filled structs
@@ -90,7 +90,7 @@ ApplyUnits(M, units, acc, deep, small) ==
   ELSE LET u == Head(units)
            next ==
              CASE u.k = "field" -> {SetPath(g, M.fields[u.i].gopath, v) : g \in acc, v \in FieldVals(M.fields[u.i], deep, small)}
-               [] u.k = "oneof" -> {SetPath(g, <<u.h>>, v) : g \in acc, v \in OneofVals(M, u.h, deep, small)}
+               [] u.k = "oneof" -> {SetPath(g, u.h, v) : g \in acc, v \in OneofVals(M, u.h, deep, small)}
                [] OTHER -> \* optional embed parent: nil, or allocated with every combination of its children
                   LET kids == {i \in DOMAIN M.fields : M.fields[i].embed # "" /\ Front(M.fields[i].gopath) = u.pp}
                       kidUnits == [j \in 1..Cardinality(kids) |-> [k |-> "field", i |-> SetToSeq(kids)[j]]]
@@ -100,7 +100,7 @@ ApplyUnits(M, units, acc, deep, small) ==
 
 UnitsOf(M) ==
   LET fs == SetToSeq(PlainIdx(M))
-      os == M.oneofs
+      os == M.ohold
       es == SetToSeq(EmbedParents(M))
   IN [j \in DOMAIN fs |-> [k |-> "field", i |-> fs[j]]]
      \o [j \in DOMAIN os |-> [k |-> "oneof", h |-> os[j]]]
